@@ -32,6 +32,7 @@ def run(ctx):
                       "the event carries old = the value read from the same storage just before the store and new = the stored binding; "
                       "Parameter.__setattr__ stores the slot before _trigger_event", floor=3)
     ctx.rule("R03.b", "both value-dispatch loops iterate sorted(watchers, key=precedence) (stable: registration order within a precedence)", floor=2)
+    ctx.rule("R03.g", "assignments made by a queued callback are dispatched before the outer assignment returns: the flush loops until no event is left", floor=1)
     ctx.rule("R03.c", "Comparator: numbers/str/None/dates compare with operator.eq, containers recurse, and every fall-through return on a mismatch is the literal False", floor=6)
     ctx.rule("R03.d", "_update_event_type: 'triggered' if triggered else 'changed' if onlychanged else 'set' (4 abstract cases, exhaustive)", floor=1)
     ctx.rule("R03.e", "_register_watcher appends to / removes from the table paths the setter and _trigger_event read", floor=3)
@@ -100,26 +101,10 @@ def run(ctx):
         else:
             ctx.fail("R03.a", sa, t, "_trigger_event can run before the slot was stored")
 
-    # ------------------------------------------------------------- R03.b
-    for q, callee in ((P + "Parameter.__set__", "_call_watcher"), (P + "Parameters._batch_call_watchers", "_execute_watcher")):
-        g = ctx.repo.func(q)
-        loops = [st for st in ast.walk(g.node) if isinstance(st, ast.For)
-                 and any(isinstance(c, ast.Call) and isinstance(c.func, ast.Attribute) and c.func.attr == callee for c in ast.walk(st))]
-        ctx.require(loops, "dispatch loop calling %s not found in %s" % (callee, q))
-        for lp in loops:
-            it = lp.iter
-            ok = sorted_by_precedence(it)
-            if not ok and isinstance(it, ast.Name):
-                defs = [st for st in ast.walk(g.node) if isinstance(st, ast.Assign) and any(isinstance(t, ast.Name) and t.id == it.id for t in st.targets)]
-                ok = bool(defs) and all(sorted_by_precedence(d.value) for d in defs)
-                if not ok:
-                    ok = any(isinstance(c, ast.Call) and isinstance(c.func, ast.Attribute) and c.func.attr == "sort" and norm(c.func.value) == it.id
-                             and sorted_by_precedence(ast.Call(func=ast.Name(id="sorted"), args=[], keywords=c.keywords)) for c in ast.walk(g.node))
-            if ok:
-                ctx.ok("R03.b", g, lp, "iterates sorted(..., key=precedence)")
-            else:
-                ctx.fail("R03.b", g, lp, "the dispatch loop `for %s in %s` does not iterate the watchers sorted by precedence (stable sort): "
-                                         "watchers run in registration order regardless of precedence" % (norm(lp.target), norm(it)[:60]))
+    # ------------------------------------------------------------- R03.b / R03.g
+    from checks.shared import dispatch_loops_sorted, flush_drains
+    dispatch_loops_sorted(ctx, "R03.b", ((P + "Parameter.__set__", "_call_watcher"), (P + "Parameters._batch_call_watchers", "_execute_watcher")))
+    flush_drains(ctx, "R03.g")
 
     # ------------------------------------------------------------- R03.c
     comp = ctx.repo.cls(P + "Comparator")
